@@ -63,6 +63,21 @@ MODULES["rvc_relocations"] = dict(
 )
 
 
+MODULES["arm_relocations"] = dict(
+    relpath="ppci/arch/arm/arm_relocations.py", lean_name="Py_arm_relocations", externals=BITFUN_EXTERNALS,
+    functions=["Rel8Relocation.calc", "Imm24Relocation.calc"],
+)
+MODULES["thumb_relocations"] = dict(
+    relpath="ppci/arch/arm/thumb_relocations.py", lean_name="Py_thumb_relocations", externals=BITFUN_EXTERNALS,
+    functions=["Lit8Relocation.apply", "WrapNew11Relocation.apply", "Rel8Relocation.apply", "BlImm11Relocation.apply"],
+)
+MODULES["x86_64_relocations"] = dict(
+    relpath="ppci/arch/x86_64/instructions.py", lean_name="Py_x86_64_relocations", externals=BITFUN_EXTERNALS,
+    functions=["Rel32JmpRelocation.calc", "Abs32Relocation.calc", "Jmp8Relocation.calc", "Abs64Relocation.calc"],
+    records={("Rel32JmpRelocation.calc", "self"): R(["addend"])},
+)
+
+
 def _ir2py_helper_text():
     """the text that `IrToPythonCompiler.generate_builtins` of the checked tree EMITS for its arithmetic
     helpers (correct / idiv / irem / ishl / ishr), dedented to module level"""
@@ -90,7 +105,7 @@ def regen(ctx, key):
 
 
 # everything the relocation theorems (Props/C10T1, C11T1) import
-RELOC_KEYS = ["bitfun", "riscv_relocations", "rvc_relocations"]
+RELOC_KEYS = ["bitfun", "riscv_relocations", "rvc_relocations", "arm_relocations", "thumb_relocations", "x86_64_relocations"]
 
 
 def regen_many(ctx, keys):
